@@ -381,6 +381,30 @@ def scope_case(case: dict) -> dict:
                     set_resolution_context(cur, (ps,))
                 attach_resolution_context(cur, owner=cur)
             for k in case["keys"]:
+                if k == "<call>":
+                    # into the body of a directly applied function, the way the repository's own tests reach it
+                    from nix_manipulator.expressions.function.call import FunctionCall
+                    from nix_manipulator.expressions.parenthesis import Parenthesis
+                    from nix_manipulator.expressions.with_statement import WithStatement
+                    from nix_manipulator.resolution import attach_resolution_context
+                    if hasattr(cur, "expressions"):
+                        cur = cur.expr
+                    for _ in range(20):
+                        if isinstance(cur, Parenthesis):
+                            cur = cur.value
+                        elif isinstance(cur, WithStatement):
+                            cur = cur._attach_body_context()
+                        else:
+                            break
+                    if not isinstance(cur, FunctionCall):
+                        raise SystemExit(f"harness: no call at <call>: {type(cur).__name__}")
+                    fn = cur.name
+                    while isinstance(fn, Parenthesis):
+                        fn = fn.value
+                    body = fn.output
+                    attach_resolution_context(body, owner=cur)
+                    cur = body
+                    continue
                 cur = cur[k]
             v = cur.value
             try:
